@@ -79,6 +79,10 @@ func Run(c *hx.Ctx) {
 		initEnv()
 		runHandoverWrites(c)
 	}
+	if only == "" || only == "hwl" { // c11w9: a large write in progress at the hand-over
+		initEnv()
+		runC11w9BigWrites(c)
+	}
 	if only == "" || only == "vl" {
 		initEnv()
 		for _, g := range fixedVL {
